@@ -54,11 +54,13 @@ struct Th {
     finished: bool,
     block: Block,
     yielding: bool,
-    spin_mark: u64, // epoch+1 at which the previous spin marker was seen
+    /// per wait-loop site: epoch at which its marker was last passed
+    spin_sites: Vec<(usize, u64)>,
     notified: bool,
     stats: OpStats,
     solo: bool,
     started: bool,
+    trace_idx: usize,
 }
 
 impl Th {
@@ -67,11 +69,12 @@ impl Th {
             finished: false,
             block: Block::None,
             yielding: false,
-            spin_mark: 0,
+            spin_sites: Vec::new(),
             notified: false,
             stats: OpStats::default(),
             solo: false,
             started: false,
+            trace_idx: usize::MAX,
         }
     }
 }
@@ -174,7 +177,7 @@ struct Inner {
     stop_on_fault: bool,
     // sequential mode
     seq_stats: OpStats,
-    seq_spin_mark: u64,
+    seq_spin_sites: Vec<(usize, u64)>,
     seq_horizon: u64,
     seq_steps: u64,
     seq_notifies: Vec<usize>,
@@ -250,7 +253,7 @@ pub fn sched() -> &'static Sched {
             faults: Vec::new(),
             stop_on_fault: true,
             seq_stats: OpStats::default(),
-            seq_spin_mark: 0,
+            seq_spin_sites: Vec::new(),
             seq_horizon: 200_000,
             seq_steps: 0,
             seq_notifies: Vec::new(),
@@ -435,7 +438,6 @@ impl Sched {
                 g.status.get_or_insert(Status::Complete);
                 g.mode = Mode::Idle;
                 drop(g);
-                self.main.unpark();
                 return; // only reached from Exit
             }
             let hang: Vec<(usize, Block)> = g
@@ -532,7 +534,6 @@ impl Sched {
             None => {
                 g.mode = Mode::Idle;
                 drop(g);
-                self.main.unpark();
             }
         }
     }
@@ -556,6 +557,7 @@ impl Sched {
             let a = g.name(addr);
             let s = format!("t{} {} @{}", me, what, a);
             g.trace.push(s);
+            g.th[me].trace_idx = g.trace.len() - 1;
         }
         self.switch(me, g, kind);
     }
@@ -578,7 +580,8 @@ impl Sched {
             };
             g.trace_hash = fnv(fnv(fnv(g.trace_hash, me as u64), a), v);
             if g.tracing {
-                if let Some(l) = g.trace.last_mut() {
+                let ti = g.th[me].trace_idx;
+                if let Some(l) = g.trace.get_mut(ti) {
                     l.push_str(&format!(" -> {:#x}{}", v, if changed { " *" } else { "" }));
                 }
             }
@@ -788,6 +791,13 @@ impl Runtime for Sched {
         if g.mode != Mode::Running {
             return;
         }
+        // the decision to sleep and the sleep itself are separate steps
+        drop(g);
+        self.managed_point(me, PointKind::Normal, "condwait-enter", cv);
+        let mut g = self.lock();
+        if g.mode != Mode::Running {
+            return;
+        }
         g.steps += 1;
         g.tick += 1;
         g.clear_owner(mutex);
@@ -879,32 +889,37 @@ impl Runtime for Sched {
         self.managed_point(me, PointKind::Yield, "sleep", 0);
     }
 
-    fn spin_loop(&self) {
+    fn spin_loop(&self, site: usize) {
         let me = tid();
         if me == NONE || is_unwinding() {
             return;
         }
         let _u = Untrack::new();
         let mut g = self.lock();
+        let e = g.epoch;
         if me == SEQ {
             g.seq_stats.spin_marks += 1;
-            if g.seq_spin_mark == g.epoch + 1 {
-                // second pass over the loop head with nothing changed: on one
-                // thread this loop can never end
+            let seen = g.seq_spin_sites.iter().any(|&(s, ep)| s == site && ep == e);
+            if seen {
+                // a whole pass over this loop changed nothing: on one thread
+                // it can never end
                 g.seq_stats.spin_blocks += 1;
                 drop(g);
                 unwind_abort();
             }
-            g.seq_spin_mark = g.epoch + 1;
+            g.seq_spin_sites.retain(|&(s, _)| s != site);
+            g.seq_spin_sites.push((site, e));
             return;
         }
         if g.mode != Mode::Running {
             return;
         }
         g.th[me].stats.spin_marks += 1;
-        let e = g.epoch;
-        if g.th[me].spin_mark == e + 1 {
-            // nothing changed since the previous pass: wait for a change
+        let seen = g.th[me].spin_sites.iter().any(|&(s, ep)| s == site && ep == e);
+        g.th[me].spin_sites.retain(|&(s, _)| s != site);
+        if seen {
+            // nothing changed since the previous pass over this loop head:
+            // the thread waits for a change made by somebody else
             g.th[me].block = Block::Spin(e);
             g.th[me].stats.spin_blocks += 1;
             g.steps += 1;
@@ -919,9 +934,9 @@ impl Runtime for Sched {
             }
             g.th[me].block = Block::None;
             let e = g.epoch;
-            g.th[me].spin_mark = e + 1;
+            g.th[me].spin_sites.push((site, e));
         } else {
-            g.th[me].spin_mark = e + 1;
+            g.th[me].spin_sites.push((site, e));
             g.th[me].yielding = true;
             drop(g);
             self.managed_point(me, PointKind::Yield, "spin", 0);
@@ -1000,14 +1015,26 @@ pub fn op_begin() -> u64 {
     let s = sched();
     let mut g = s.lock();
     g.tick += 1;
+    // a new API call is not another pass over a wait loop inside the crate;
+    // harness-level retry loops (site ids < 4096) span several calls
     if me == SEQ {
         g.seq_stats = OpStats::default();
-        g.seq_spin_mark = 0;
+        g.seq_spin_sites.retain(|&(s, _)| s < 4096);
         g.seq_steps = 0;
     } else if me < MAXT {
         g.th[me].stats = OpStats::default();
+        g.th[me].spin_sites.retain(|&(s, _)| s < 4096);
     }
     g.tick
+}
+
+/// Loop-head marker of a retry loop in the harness itself.
+pub fn harness_spin(site: usize) {
+    use multiqueue2::verif_hooks::Runtime;
+    assert!(site < 4096);
+    if tid() != NONE {
+        sched().spin_loop(site);
+    }
 }
 
 pub fn op_end() -> (u64, OpStats) {
@@ -1172,9 +1199,20 @@ pub fn exec_end() -> MemReport {
         sleeps_total: g.sleeps_total,
     };
     g.freed.clear();
-    g.live.clear();
+    // whatever the queue leaked is dead now (every handle is gone): give it
+    // back so that millions of executions do not exhaust memory. All crate
+    // blocks have alignment <= 16, which is all the allocator needs to know.
+    let leaked: Vec<(usize, usize)> = g.live.drain().collect();
     drop(g);
     valloc::defer_end();
+    for (p, bytes) in leaked {
+        unsafe {
+            std::alloc::dealloc(
+                p as *mut u8,
+                std::alloc::Layout::from_size_align_unchecked(bytes, 8),
+            );
+        }
+    }
     r
 }
 
@@ -1191,7 +1229,7 @@ pub fn seq_call<R>(f: impl FnOnce() -> R) -> Result<R, Option<String>> {
     {
         let mut g = s.lock();
         g.seq_steps = 0;
-        g.seq_spin_mark = 0;
+        g.seq_spin_sites.clear();
     }
     set_thread_runtime(Some(s));
     valloc::set_defer_thread(true);
@@ -1227,6 +1265,82 @@ pub fn set_seq_horizon(h: u64) {
 
 pub type Body = Box<dyn FnOnce() + Send + 'static>;
 
+struct Pool {
+    jobs: Vec<Mutex<Option<Body>>>,
+    job_parkers: Vec<Parker>,
+    latch: Mutex<usize>,
+    latch_cv: Condvar,
+}
+
+static POOL: OnceLock<Pool> = OnceLock::new();
+
+fn pool() -> &'static Pool {
+    POOL.get_or_init(|| {
+        let p = Pool {
+            jobs: (0..MAXT).map(|_| Mutex::new(None)).collect(),
+            job_parkers: (0..MAXT).map(|_| Parker::new()).collect(),
+            latch: Mutex::new(0),
+            latch_cv: Condvar::new(),
+        };
+        for i in 0..MAXT {
+            std::thread::Builder::new()
+                .stack_size(1024 * 1024)
+                .spawn(move || worker_main(i))
+                .expect("spawn");
+        }
+        p
+    })
+}
+
+fn worker_main(i: usize) {
+    TID.with(|t| t.set(i));
+    set_thread_runtime(Some(sched()));
+    valloc::set_defer_thread(true);
+    let s = sched();
+    loop {
+        let p = pool();
+        p.job_parkers[i].park();
+        let body = p.jobs[i].lock().unwrap().take();
+        let body = match body {
+            Some(b) => b,
+            None => continue,
+        };
+        UNWINDING.with(|u| u.set(false));
+        let _ = take_last_panic();
+        let r = panic::catch_unwind(AssertUnwindSafe(|| {
+            s.wait_for_baton(i);
+            body();
+        }));
+        {
+            // thread exit
+            let _u = Untrack::new();
+            let mut g = s.lock();
+            if let Err(pl) = r {
+                if !pl.is::<AbortToken>() {
+                    let msg = take_last_panic().unwrap_or_else(|| "panic".into());
+                    g.panics.push((i, msg));
+                }
+            }
+            UNWINDING.with(|u| u.set(false));
+            g.th[i].finished = true;
+            g.owners.retain(|(_, o)| *o != i);
+            match g.mode {
+                Mode::Abort => s.abort_next(g),
+                Mode::Running => {
+                    g.tick += 1;
+                    s.switch(i, g, PointKind::Exit)
+                }
+                Mode::Idle => {}
+            }
+        }
+        let mut l = p.latch.lock().unwrap();
+        *l -= 1;
+        if *l == 0 {
+            p.latch_cv.notify_all();
+        }
+    }
+}
+
 /// Run one execution of `bodies` as managed threads under the choice prefix.
 pub fn run_threads(bodies: Vec<Body>, opts: &ExecOpts) -> ExecRecord {
     let s = sched();
@@ -1261,54 +1375,26 @@ pub fn run_threads(bodies: Vec<Body>, opts: &ExecOpts) -> ExecRecord {
         g.cas_weak_seen = 0;
         g.spurious_at = opts.spurious_at;
     }
-    let mut handles = Vec::with_capacity(n);
+    // persistent worker threads: worker i is always managed thread i
+    let pool = pool();
+    {
+        let mut l = pool.latch.lock().unwrap();
+        *l = n;
+    }
     for (i, body) in bodies.into_iter().enumerate() {
-        let h = std::thread::Builder::new()
-            .stack_size(512 * 1024)
-            .spawn(move || {
-                TID.with(|t| t.set(i));
-                UNWINDING.with(|u| u.set(false));
-                set_thread_runtime(Some(sched()));
-                valloc::set_defer_thread(true);
-                let s = sched();
-                let r = panic::catch_unwind(AssertUnwindSafe(|| {
-                    s.wait_for_baton(i);
-                    body();
-                }));
-                // thread exit
-                let _u = Untrack::new();
-                let mut g = s.lock();
-                if let Err(p) = r {
-                    if !p.is::<AbortToken>() {
-                        let msg = take_last_panic().unwrap_or_else(|| "panic".into());
-                        g.panics.push((i, msg));
-                    }
-                }
-                UNWINDING.with(|u| u.set(false));
-                g.th[i].finished = true;
-                g.owners.retain(|(_, o)| *o != i);
-                match g.mode {
-                    Mode::Abort => s.abort_next(g),
-                    Mode::Running => {
-                        g.tick += 1;
-                        s.switch(i, g, PointKind::Exit)
-                    }
-                    Mode::Idle => {}
-                }
-                set_thread_runtime(None);
-                TID.with(|t| t.set(NONE));
-            })
-            .expect("spawn");
-        handles.push(h);
+        *pool.jobs[i].lock().unwrap() = Some(body);
+        pool.job_parkers[i].unpark();
     }
     // first choice: which thread starts (free)
     {
         let g = s.lock();
         s.switch(NONE, g, PointKind::Blocked);
     }
-    s.main.park();
-    for h in handles {
-        let _ = h.join();
+    {
+        let mut l = pool.latch.lock().unwrap();
+        while *l > 0 {
+            l = pool.latch_cv.wait(l).unwrap();
+        }
     }
     let mut g = s.lock();
     g.mode = Mode::Idle;
